@@ -35,3 +35,10 @@ pub broadcast proof fn axiom_pattern_bytes_str(s: &str)
     ensures #[trigger] pattern_bytes::<&str>(s) == s.spec_bytes(),
 {
 }
+
+// ASSUMED (L5): a pattern's bytes are valid UTF-8 (same assumption as PatternNorm::new's postcondition)
+#[verifier::external_body]
+pub proof fn axiom_pattern_utf8<P>(p: P)
+    ensures utf8_ok(pattern_bytes(p)),
+{
+}
